@@ -7,6 +7,7 @@ from __future__ import annotations
 
 import difflib
 import hashlib
+import json
 import os
 from pathlib import Path
 
@@ -56,6 +57,16 @@ def decode(data: bytes | None) -> str | None:
         return data.decode("utf-8")
     except UnicodeDecodeError:
         return data.decode("utf-8", "surrogateescape")
+
+
+def _holds_report(path) -> bool:
+    """a file that holds a JSON document; an empty leftover of a failed write is not a written report"""
+    try:
+        with open(path, "rb") as f:
+            data = f.read()
+        return bool(data.strip()) and isinstance(json.loads(data), dict)
+    except (OSError, ValueError):
+        return False
 
 
 def changed_orig_lines(pre: str, new: str) -> tuple[set[int], dict[int, int]]:
@@ -243,7 +254,7 @@ class Projector:
                         "exc": "none" if not e.get("exc") else "raised",
                         "disk": disk1,
                         "outsideUnchanged": bool(self.outside_unchanged),
-                        "reportExists": bool(self.output_path and os.path.isfile(self.output_path)),
+                        "reportExists": bool(self.output_path and os.path.isfile(self.output_path) and _holds_report(self.output_path)),
                     }
                 )
         return {"id": self.trace_id, "events": out}
